@@ -4,8 +4,11 @@ import (
 	"context"
 	"net"
 	"sync"
+	"sync/atomic"
 
 	"google.golang.org/grpc"
+	"google.golang.org/grpc/codes"
+	"google.golang.org/grpc/status"
 	"google.golang.org/protobuf/proto"
 
 	fnv1 "github.com/crossplane/crossplane/apis/apiextensions/fn/proto/v1"
@@ -20,6 +23,8 @@ type Program func(req *fnv1.RunFunctionRequest) (*fnv1.RunFunctionResponse, erro
 type FnServer struct {
 	Addr     string
 	BetaOnly bool
+	// Serve switches which API versions are answered (ServeAsRegistered, ServeBetaOnly, ServeV1Only)
+	Serve atomic.Int32
 
 	mu   sync.Mutex
 	prog Program
@@ -33,6 +38,9 @@ type v1impl struct {
 }
 
 func (i *v1impl) RunFunction(_ context.Context, req *fnv1.RunFunctionRequest) (*fnv1.RunFunctionResponse, error) {
+	if i.s.Serve.Load() == ServeBetaOnly {
+		return nil, status.Error(codes.Unimplemented, "unknown service apiextensions.fn.proto.v1.FunctionRunnerService")
+	}
 	return i.s.run(req)
 }
 
@@ -42,6 +50,9 @@ type betaimpl struct {
 }
 
 func (i *betaimpl) RunFunction(_ context.Context, req *fnv1beta1.RunFunctionRequest) (*fnv1beta1.RunFunctionResponse, error) {
+	if i.s.Serve.Load() == ServeV1Only {
+		return nil, status.Error(codes.Unimplemented, "unknown service apiextensions.fn.proto.v1beta1.FunctionRunnerService")
+	}
 	// re-encode to v1 for the program and the record; the wire bytes are what the server got
 	b, err := proto.Marshal(req)
 	if err != nil {
@@ -73,6 +84,14 @@ func (s *FnServer) run(req *fnv1.RunFunctionRequest) (*fnv1.RunFunctionResponse,
 	}
 	return p(req)
 }
+
+// Which API versions a server answers can be switched at run time: a function runtime upgraded
+// behind an unchanged endpoint (the endpoint is a Service named after the Function).
+const (
+	ServeAsRegistered int32 = iota
+	ServeBetaOnly           // v1 calls are answered Unimplemented
+	ServeV1Only             // v1beta1 calls are answered Unimplemented
+)
 
 // NewFnServer starts a function server on a fresh loopback port.
 func NewFnServer(betaOnly bool) *FnServer {
